@@ -315,7 +315,7 @@ def sis_contracts():
                        make_ret=lambda run, sv: _NodeHistorySIS({k: getattr(sv, k) for k in ('infection_times', 'recovery_times', 'tmin', 'SIR')}),
                        note='assumed: opaque result for SIR=False'))
     g = base['Gillespie_SIS']
-    cases = [x for x in Gi.gillespie_cases(sir=False, full=True) if x.name in ('list-unweighted', 'list-weighted')]
+    cases = [x for x in Gi.gillespie_cases(sir=False, full=True) if x.name in ('list-unweighted', 'list-weighted', 'node-unweighted', 'rho-unweighted', 'default-unweighted')]
     cs.append(Contract(F, 'Gillespie_SIS', cases=cases, requires=g.requires, axioms=g.axioms,
         loops={0: sis_inv_loop0, 1: g.loops[1], 2: g.loops[2],
                3: LoopSpec(sis_inv_main, lemmas=Gi.sum_lemmas, havoc_names=('ghost_pt', 'ghost_ps'), ghost_update=sis_ghost_update),
@@ -341,7 +341,7 @@ def contracts():
         c.verify = False
         cs.append(c)
     g = base['Gillespie_SIR']
-    cases = [x for x in Gi.gillespie_cases(sir=True, full=True) if x.name in ('list-unweighted', 'list-weighted', 'list-norecovered-unweighted')]
+    cases = [x for x in Gi.gillespie_cases(sir=True, full=True) if x.name in ('list-unweighted', 'list-weighted', 'list-norecovered-unweighted', 'node-unweighted', 'rho-unweighted', 'default-unweighted')]
     cs.append(Contract(F, 'Gillespie_SIR', cases=cases, requires=g.requires, axioms=g.axioms,
         loops={0: inv_loop0, 1: inv_loop1, 2: g.loops[2], 3: g.loops[3],
                4: LoopSpec(inv_main, lemmas=Gi.sum_lemmas), 5: inv_rec_nbrs, 6: inv_trans_nbrs},
